@@ -122,6 +122,8 @@ def gen_cases(tier, seed):
         mcases = [(g, mu) for g in pure for mu in muts for _ in range(2)]
     for j, (g, mu) in enumerate(mcases):
         yield dict(i=80000 + j, kind="mutate", g=g, mutation=mu, seed=common.case_seed(seed, "C03m", j), variant=j % 2)
+    for j in range(60 if tier == "quick" else 600):
+        yield dict(i=90000 + j, kind="alias", seed=common.case_seed(seed, "C03alias", j), variant=j)
     for i in range(nh):
         rng = common.rng_for("C03", seed, i)
         yield dict(i=100000 + i, kind="history", seed=common.case_seed(seed, "C03", i), n_frames=int(rng.integers(3, 41)),
@@ -929,7 +931,54 @@ def _wide_op(ctx, t, m, op, rng, hist, step, sym):
     raise AssertionError(op)
 
 
+def run_alias(case, ctx):
+    """Two objects over ONE coordinate buffer: child = parent.slice(key, copy=False) shares data by documented design, so an
+    in-place operation on the child moves the parent's atoms too.  Whatever the parent cached about its coordinates before
+    must not survive in a way that falsifies a later operation on the parent: after parent.center_coordinates() the parent
+    IS centred, and its precentred RMSD equals the RMSD from scratch."""
+    import mdtraj as md
+    rng = common.rng_for("C03alias", case["seed"])
+    na = int(rng.integers(5, 40))
+    nf = int(rng.integers(3, 12))
+    top = common.simple_topology(na)
+    t = md.Trajectory((rng.normal(size=(nf, na, 3)) + rng.uniform(-3, 3, (nf, 1, 3))).astype(np.float32), top)
+    t.center_coordinates()
+    key = [slice(None), slice(0, nf), slice(1, None), slice(None, None, 1)][int(rng.integers(4))]
+    child = t.slice(key, copy=False)
+    if not np.shares_memory(child.xyz, t.xyz):
+        ctx.skip("alias", "slice(copy=False) returned a copy for this key")
+        return
+    how = ["superpose", "xyz-shift-in-place", "center-after-shift"][case["variant"] % 3]
+    ctx.observe("alias_child_operation", how)
+    ref = md.Trajectory((rng.normal(size=(1, na, 3)) + np.array([2.0, -1.5, 1.0])).astype(np.float32), top)
+    if how == "superpose":
+        child.superpose(ref)
+    elif how == "xyz-shift-in-place":
+        child.xyz[:] += np.float32(1.7)
+    else:
+        child.xyz[:] += np.float32(0.9)
+        child.center_coordinates()
+        child.xyz[:] += np.float32(0.4)
+    moved = float(np.abs(np.asarray(t.xyz, np.float64).mean(axis=1)).max())
+    ctx.observe("alias_parent_moved_with_child", "yes" if moved > 1e-3 else "no")
+    t.center_coordinates()
+    c = float(np.abs(np.asarray(t.xyz, np.float64).mean(axis=1)).max())
+    scale = max(1.0, float(np.abs(t.xyz).max()))
+    ctx.check(c < 1e-5 * scale, "alias.center", f"center_coordinates:after-in-place-move-through-a-sharing-slice({how}):parent-not-centred",
+              f"after child = parent.slice(copy=False); child.{how}; parent.center_coordinates() the parent's centroid is off by {c:.4g} nm")
+    raw = np.array(t.xyz, copy=True)
+    fr = int(rng.integers(0, t.n_frames))
+    got = md.rmsd(t, t, fr, precentered=True).astype(np.float64) ** 2
+    want = msd_scratch(raw, raw[fr:fr + 1])
+    G = ((raw.astype(np.float64) - raw.astype(np.float64).mean(axis=1, keepdims=True)) ** 2).sum(axis=(1, 2))
+    tol = 2e-4 * (G + G[fr]) / na + 1e-9
+    ctx.check(bool(np.all(np.abs(got - want) <= tol)), "alias.traces", f"rmsd(precentered=True):after-in-place-move-through-a-sharing-slice({how}):differs-from-scratch",
+              "rmsd(precentered=True) on the re-centred parent differs from the RMSD from scratch")
+
+
 def run_case(case, ctx):
+    if case["kind"] == "alias":
+        return run_alias(case, ctx)
     if case["kind"] == "immutable":
         return run_immutable(case, ctx)
     if case["kind"] == "pair":
